@@ -7,8 +7,8 @@ from harness import common as C
 
 META = {
     "id": "C13",
-    "technique": "Coq proof (registry: reflection over translator-generated tables; INI: induction over text) + extracted-model correspondence with pio.py + configparser read-back oracle",
-    "level_text": "Theorems C13_* (coq/Props/C13.v) are proved for all strings about a Gallina model of validate_platform_board/write_project whose tables are regenerated from pio.py on every run; the model is run against the real functions on (registry+near-miss)^2 and generated project configurations.",
+    "technique": "Coq proof (registry: reflection over translator-generated tables; INI: induction over text of a model of write_project's renderer and of configparser's reader) + extracted-model correspondence with pio.py and with CPython configparser + configparser read-back oracle",
+    "level_text": "Theorems C13_* (coq/Props/C13.v) are proved for all strings about a Gallina model of validate_platform_board/write_project (tables and the PIO_INI template regenerated from pio.py on every run) and of configparser.ConfigParser(interpolation=None); the round trip is proved inside an explicit guard (no line break, no blank padding, library names not starting with # or ;) and refuted outside it by the three listed findings; the model is run against the real functions on (registry+near-miss)^2, generated project configurations, and - model-vs-implementation only - hostile configurations and INI texts outside the guard.",
     "level_note": "Trusted: Coq kernel, translator gen_tables.py, extraction (ExtrOcamlBasic), OCaml driver, CPython configparser(interpolation=None) as 'a standard INI parser'. The theorems are about the model; the correspondence check bounds its distance from pio.py.",
     "design_ref": "DESIGN.md section 4 C13, Appendix A.6",
 }
@@ -113,11 +113,11 @@ def run(ctx: C.Ctx):
     wcases = []
     pairs = [(p, b) for p, bs in plats.items() for b in bs]
     n_w = 600 if thorough else 150
-    libpool = ["Servo", "LiquidCrystal", "LiquidCrystal_I2C", "", "a b", "x=y", "arduino-libraries/Servo@^1.2.1", "é", "[z]", "Servo"]
+    libpool = ["Servo", "LiquidCrystal", "LiquidCrystal_I2C", "", "a b", "x=y", "arduino-libraries/Servo@^1.2.1", "é", "[z]", "Servo", "servo", "SERVO", "Servo2", "a  b"]
     srcpool = ["", "void setup(){}\nvoid loop(){}\n", "// é ü √ 漢字\r\nint x;\n", "\n\n  \n", "[env:x]\nboard = y\n"]
     for i in range(n_w):
         pl, b = pairs[i % len(pairs)] if i < 40 else rng.choice(pairs)
-        port = rng.choice(["COM3", "/dev/ttyUSB0", "/dev/cu.usbmodem1101", "", "a b", "x = y", "#1", ";", "[p]", "%(x)s", "p:1"]) if rng.random() < 0.5 else gen_text(rng, PRINTABLE, 12)
+        port = rng.choice(["COM3", "/dev/ttyUSB0", "/dev/cu.usbmodem1101", "", "a b", "x = y", "#1", ";", "[p]", "%(x)s", "p:1", "/dev/", "COM3/", "=", "a  b", "é"]) if rng.random() < 0.5 else gen_text(rng, PRINTABLE, 12)
         libs = None if rng.random() < 0.15 else [rng.choice(libpool) if rng.random() < 0.7 else gen_text(rng, PRINTABLE, 8) for _ in range(rng.randint(0, 5))]
         if not in_guard_port(port):
             port = port.strip()
@@ -137,6 +137,9 @@ def run(ctx: C.Ctx):
 
     # ---------------- model correspondence for the INI renderer (if the model has it)
     n_ini = ini_correspondence(ctx, wcases, wres)
+    # ---------------- the model on its whole domain (outside the guard: correspondence only, no oracle)
+    ini_dist = ini_model_validation(ctx, pairs, all_boards)
+    n_extra = sum(ini_dist.get(k, 0) for k in ("hostile_write_cases", "reader_texts", "libsec_cases", "envname_cases"))
 
     # ---------------- known findings: replay the listed witnesses
     for f in ctx.findings:
@@ -152,25 +155,77 @@ def run(ctx: C.Ctx):
             ctx.known(f"{f['id']}: {f['what']}")
 
     ctx.coverage.update({
-        "evaluations": len(vcases) + len(wcases) + len(wbad),
+        "evaluations": len(vcases) + len(wcases) + len(wbad) + n_extra,
         "distinct_nontrivial": len({(c[1], c[2]) for c, r in zip(vcases, impl) if r[0] == "ok" or (r[0] == "ValueError" and r[1] in (2, 3))}) + len({repr(c) for c in wcases}),
-        "rule": "validate: (platforms+near-miss+sampled board names) x (all registered boards+near-miss names), distinct non-trivial = accepted, unknown-board or mismatched pairs (unknown-platform rejections counted trivial); write_project: seeded configurations inside the guard (printable port without blank padding; library names without blank padding / comment prefix; duplicates and empties included), all distinct",
+        "rule": "validate: (platforms+near-miss+sampled board names) x (all registered boards+near-miss names), distinct non-trivial = accepted, unknown-board or mismatched pairs (unknown-platform rejections counted trivial); write_project: seeded configurations inside the guard (printable port without blank padding; library names without blank padding / comment prefix; duplicates and empties included), all distinct - these feed the property oracle AND the model correspondence (file text, configparser tables in order); model-only streams (never the oracle): write_project with hostile ports/libraries outside the guard (exhaustive singles and pairs over a boundary alphabet of blanks, line breaks, comment prefixes, delimiters, brackets, header/option look-alikes, then seeded), the reader alone on structured random INI texts, _format_lib_section and _sanitize_env_name on generated inputs (not counted in distinct_nontrivial)",
         "samples": [vcases[0], vcases[len(vcases) // 2], wcases[0], wcases[-1]],
         "distribution": {"validate_cases": len(vcases), "validate_outcomes": kinds, "accepted": n_accept,
                          "write_cases": len(wcases), "write_invalid_pairs": len(wbad), "ini_model_cases": n_ini,
                          "platform_candidates": len(pcands), "board_candidates": len(bcands),
                          "lib_lists_with_duplicates": sum(1 for c in wcases if c[5] and len(set(c[5])) < len(c[5])),
-                         "lib_lists_with_empties": sum(1 for c in wcases if c[5] and "" in c[5])},
+                         "lib_lists_with_empties": sum(1 for c in wcases if c[5] and "" in c[5]),
+                         "ini_model_validation": ini_dist},
         "exhaustive": False,
         "guard": "port: str.isprintable() and no leading/trailing blank; library names: printable, no blank padding, not starting with '#' or ';' (outside: known findings F-C13-*)",
-        "unmodelled": ["PlatformIO's own INI reader (configparser(interpolation=None) stands for 'a standard INI parser')", "non-printable characters in port/library names", "file-system failures"],
+        "unmodelled": ["PlatformIO's own INI reader (configparser(interpolation=None) stands for 'a standard INI parser')",
+                       "UTF-8 encoding/decoding of the file (identity on code points; lone surrogates make write_project raise and are never sent)",
+                       "str.lower() of cased non-ASCII letters in option names (model lower-cases A-Z only; such letters are kept out of generated keys; the template's keys are ASCII)",
+                       "configparser exception kinds (the model has one 'read raises' outcome)",
+                       "the oracle's guard is the property's 'printable' one; the theorem's guard is wider (any character but line breaks inside, no blank padding)",
+                       "file-system failures"],
         "trusted_base": C.COMMON_TRUSTED + ["harness/impl/c13_impl.py (calls pio.validate_platform_board / write_project in a scratch dir, reads back with configparser)"],
     })
     ctx.assumptions += ["CPython configparser(interpolation=None) is the reference INI reader", "registry tables are those of the imported module (translator reads them after import)"]
 
 
+# ---------------------------------------------------------------------------
+# model-vs-implementation correspondence for the INI half
+# ---------------------------------------------------------------------------
+
+def model_sections(wsecs):
+    """wire ((name ((key value)...))...) -> [[name, [[k, v], ...]], ...] in the shape of impl 'raw':
+    sections in first-seen order, the default section last and only if it has options"""
+    secs = [[C.wstr(s[0]), [[C.wstr(k), C.wstr(v)] for k, v in s[1]]] for s in wsecs]
+    dflt = [s for s in secs if s[0] == "DEFAULT"]
+    secs = [s for s in secs if s[0] != "DEFAULT"]
+    if dflt and dflt[0][1]:
+        secs.append(dflt[0])
+    return secs
+
+
+def same_read(msecs, raw):
+    """msecs: model_sections(...) or None for 'the read raises'; raw: impl raw tables or {'__error__': kind}"""
+    if isinstance(raw, dict):
+        return msecs is None
+    return msecs is not None and msecs == raw
+
+
+def compare_write(ctx, stream, wcases, wres, outs):
+    """tag-1 outputs against write_project's real file and configparser's real tables"""
+    n_err = 0
+    for c, r, m in zip(wcases, wres, outs):
+        if r["status"] != "ok":
+            if m[0] == 0:
+                ctx.disagree(f"render ({stream}): model writes, implementation raises", c, m[0], r["status"])
+            continue
+        # model returns (0 ini_text sections) - sections () when the read raises - or (1 kind)
+        if m[0] != 0:
+            ctx.disagree(f"render ({stream}): model rejects, implementation writes", c, m, r["status"])
+            continue
+        mtext = C.wstr(m[1])
+        if mtext != r["ini"]:
+            ctx.disagree(f"platformio.ini text ({stream}): model vs implementation", c, mtext, r["ini"])
+            continue
+        msecs = model_sections(m[2]) if m[2] != [] else None
+        n_err += msecs is None
+        if not same_read(msecs, r["raw"]):
+            ctx.disagree(f"ini_read model vs configparser ({stream})", c, msecs, r["raw"])
+    return n_err
+
+
 def ini_correspondence(ctx, wcases, wres):
-    """model render/ini_read vs the real renderer and configparser; returns number of cases compared."""
+    """model render/ini_read vs the real renderer and configparser on the in-guard write cases;
+    returns number of cases compared."""
     if not ctx.exe:
         return 0
     try:
@@ -181,20 +236,115 @@ def ini_correspondence(ctx, wcases, wres):
         return 0  # model has no INI part yet
     cases = [[1, c[2], c[3], c[4], list(c[5] or [])] for c in wcases]
     outs = ctx.model(cases)
-    for c, r, m in zip(wcases, wres, outs):
-        if r["status"] != "ok":
-            continue
-        # model returns (0 ini_text (section-name ((key value)...)))  or error
-        if m[0] != 0:
-            ctx.disagree("render: model rejects, implementation writes", c, m, r["status"])
-            continue
-        mtext = C.wstr(m[1])
-        if mtext != r["ini"]:
-            ctx.disagree("platformio.ini text: model vs implementation", c, mtext, r["ini"])
-            continue
-        if len(m) > 2 and m[2] != []:
-            msec = {C.wstr(s[0]): {C.wstr(k): C.wstr(v) for k, v in s[1]} for s in m[2]}
-            isec = {k: v for k, v in r["parsed"].items()}
-            if msec != isec:
-                ctx.disagree("ini_read model vs configparser", c, msec, isec)
+    compare_write(ctx, "in guard", wcases, wres, outs)
     return len(cases)
+
+
+# hostile material: blanks of every kind, line breaks, comment prefixes, delimiters, brackets,
+# things that look like headers / options / continuation lines, upper-case keys.
+# Cased non-ASCII letters are left out (the model lower-cases ASCII only), as are lone surrogates
+# (not encodable as UTF-8: write_project raises before anything is read back).
+ATOMS = ["", " ", "  ", "\t", "\r", "\n", "\r\n", "#", ";", "=", ":", "[", "]", "[x]", "[env:uno]", "[DEFAULT]",
+         "KEY = v", "Key: V", "lib_deps = q", "board = zz", "upload_port", "\xa0", "\u2003", "\u3000", "\x0b", "\x0c",
+         "\x1c", "\x85", "\u2028", "\u00e9", "a", "B", "0", "%(x)s", "x=y", "COM3", "Servo", "\x00", "\u221a\u6f22"]
+SHORT = ["", " ", "\t", "\n", "\r", "#", ";", "=", ":", "[x]", "a", "K = v", "\xa0"]
+
+
+def hostile_text(rng, maxatoms=4):
+    return "".join(rng.choice(ATOMS) for _ in range(rng.randint(0, maxatoms)))
+
+
+def ini_texts(rng, n):
+    """structured random INI-like files for the reader alone"""
+    ws = ["", " ", "  ", "\t", "\xa0", "\x0c", " \u2003", "   "]
+    toks = ["a", "b", "K", "Key", "x y", "\u00e9", "#c", ";c", "[q]", "a=b", "a:b", "DEFAULT", "lib_deps", "%(x)s", "", "]", "[",
+            "=", ":", "a]b", "\x1c", "\x85z", "z\x0b", "env:uno"]
+
+    def line():
+        k = rng.random()
+        w, w2, w3 = rng.choice(ws), rng.choice(ws), rng.choice(ws)
+        t = lambda: rng.choice(toks)
+        if k < 0.2:
+            return w + "[" + t() + "]" + w2 + (t() if rng.random() < 0.2 else "")
+        if k < 0.55:
+            return w + t() + w2 + rng.choice("=:") + w3 + t() + rng.choice(ws)
+        if k < 0.75:
+            return rng.choice(ws[1:]) + t()
+        if k < 0.85:
+            return w
+        if k < 0.92:
+            return w + rng.choice("#;") + t()
+        return hostile_text(rng, 3)
+
+    fixed = ["", "\n", "[a]", "[a]\nk=v", "[a]\nk=v\n  c\n\n  d\n\nj:1", "k=v", "[a]\n[a]", "[a]\nk=1\nK=2", "[a]\n=v", "[a]\nnodelim",
+             "[]", "[]]\nk=v", "[a]x]y\nk=v", "[DEFAULT]\na=1\n[s]\nb=2\n[DEFAULT]\nc=3", "[DEFAULT]\na=1\n[DEFAULT]\na=2",
+             "[a]\r\nk=v\r  x\r\n", "[a]\n k=v\n  c\n k2=w\n c2", "[a]\n  k=v\n c\n", "[a]\nk=v\n#c\n  d\n", "[a]\nk\x0b=\x1cv\x85\n"]
+    out = list(fixed)
+    for _ in range(n):
+        out.append(("[s]\n" if rng.random() < 0.7 else "") +
+                   "".join(line() + rng.choice(["\n", "\n", "\n", "\r\n", "\r", ""]) for _ in range(rng.randint(0, 7))))
+    return out
+
+
+def ini_model_validation(ctx, pairs, all_boards):
+    """Validation of the model on its WHOLE domain (model vs implementation only; these cases are
+    outside the guard and never reach the property oracle).  Returns a distribution dict."""
+    if not ctx.exe or ctx.model([[1, "COM1", "atmelavr", "uno", []]]) == [[2]]:
+        return {}
+    rng = ctx.rng
+    thorough = ctx.tier == "thorough"
+    dist = {}
+    # (a) write_project with hostile ports / library names -> file text and configparser tables
+    confs = [(p, None) for p in ATOMS] + [("COM3", [a]) for a in ATOMS]
+    confs += [(a + b, None) for a in SHORT for b in SHORT] + [("COM3", [a, b]) for a in SHORT for b in SHORT]
+    confs += [(a + "x" + b, ["y" + b, a + "z"]) for a in SHORT for b in SHORT]
+    for _ in range(2500 if thorough else 350):
+        confs.append((hostile_text(rng), None if rng.random() < 0.2 else [hostile_text(rng, 3) for _ in range(rng.randint(0, 4))]))
+    wc = []
+    for i, (port, libs) in enumerate(confs):
+        pl, b = pairs[i % len(pairs)] if i % 3 else ("atmelavr", "uno")
+        wc.append(["write", "int x;", port, pl, b, libs, False])
+    wr = C.run_impl("c13_impl.py", {"cases": wc})
+    outs = ctx.model([[1, c[2], c[3], c[4], list(c[5] or [])] for c in wc])
+    n_err = compare_write(ctx, "outside guard", wc, wr, outs)
+    dist["hostile_write_cases"] = len(wc)
+    dist["hostile_write_read_raises"] = n_err
+    dist["hostile_write_outside_guard"] = sum(1 for c in wc if not (in_guard_port(c[2]) and all(in_guard_lib(n) for n in (c[5] or []))))
+    # (b) the reader alone on INI-like texts
+    texts = ini_texts(rng, 8000 if thorough else 1500)
+    rr = C.run_impl("c13_impl.py", {"cases": [["iniread", t] for t in texts]})
+    mo = ctx.model([[4, t] for t in texts])
+    n_ok = 0
+    for t, r, m in zip(texts, rr, mo):
+        msecs = model_sections(m[1]) if m[0] == 0 else None
+        n_ok += msecs is not None
+        if not same_read(msecs, r):
+            ctx.disagree("ini_read model vs configparser (reader alone)", ["iniread", t], msecs, r)
+    dist["reader_texts"] = len(texts)
+    dist["reader_texts_parsed"] = n_ok
+    dist["reader_texts_raise"] = len(texts) - n_ok
+    # (c) _format_lib_section and _sanitize_env_name directly
+    pool = ["Servo", "LiquidCrystal", "", "a b", " Servo ", "#x", "x=y", "Servo", "\u00e9", "\n", "a\nb", " ", "servo"]
+    liblists = [None, [], [""], ["", ""], ["a"], ["a", "a"], ["a", "", "a"], ["a", "b", "a"], ["b", "a", "b", "a"]]
+    for _ in range(1500 if thorough else 300):
+        liblists.append([rng.choice(pool) if rng.random() < 0.8 else hostile_text(rng, 2) for _ in range(rng.randint(0, 7))])
+    lr = C.run_impl("c13_impl.py", {"cases": [["libsec", l] for l in liblists]})
+    lm = ctx.model([[2, list(l or [])] for l in liblists])
+    for l, r, m in zip(liblists, lr, lm):
+        if m[0] != 0 or C.wstr(m[1]) != r:
+            ctx.disagree("_format_lib_section: model vs implementation", ["libsec", l], C.wstr(m[1]) if m[0] == 0 else m, r)
+    dist["libsec_cases"] = len(liblists)
+    dist["libsec_with_duplicates"] = sum(1 for l in liblists if l and len(set(l)) < len(l))
+    dist["libsec_empty_result"] = sum(1 for r in lr if r == "")
+    names = list(all_boards) + ["", "-", "--", "a--b", "-a-", "a b", "a_b", "a.b/c", "\u00e9", "a\u00e9\u00e9b", "\u0663", "A\n\nZ", "__", "a-_-b", "\u212a"]
+    walpha = "abzAZ09_-. /+\u00e9\u0663\n:"
+    for _ in range(3000 if thorough else 500):
+        names.append("".join(rng.choice(walpha) for _ in range(rng.randint(0, 10))))
+    er = C.run_impl("c13_impl.py", {"cases": [["envname", n] for n in names]})
+    em = ctx.model([[3, n] for n in names])
+    for n, r, m in zip(names, er, em):
+        if m[0] != 0 or C.wstr(m[1]) != r:
+            ctx.disagree("_sanitize_env_name: model vs implementation", ["envname", n], C.wstr(m[1]) if m[0] == 0 else m, r)
+    dist["envname_cases"] = len(names)
+    dist["envname_changed"] = sum(1 for n, r in zip(names, er) if n != r)
+    return dist
